@@ -62,6 +62,25 @@ func c11Specs() []built {
 			}
 		}
 	}
+	// options switched on and then off again (and the other way round): the last setting of each counts
+	toggles := [][]C{
+		{opt("RequireNoFollowOnFullyQualifiedLinks", true), opt("RequireNoFollowOnLinks", false)},
+		{opt("RequireNoFollowOnLinks", false), opt("RequireNoFollowOnFullyQualifiedLinks", true)},
+		{opt("RequireNoReferrerOnFullyQualifiedLinks", true), opt("RequireNoReferrerOnLinks", false), opt("AddTargetBlankToFullyQualifiedLinks", true), opt("AddTargetBlankToFullyQualifiedLinks", false)},
+		{opt("RequireNoFollowOnLinks", true), opt("RequireNoFollowOnFullyQualifiedLinks", false), opt("RequireNoReferrerOnLinks", true), opt("RequireNoReferrerOnFullyQualifiedLinks", false)},
+		{opt("AddTargetBlankToFullyQualifiedLinks", true), opt("RequireNoFollowOnLinks", false), opt("RequireNoReferrerOnLinks", false)},
+		{opt("RequireNoFollowOnLinks", true), opt("RequireNoFollowOnLinks", false), opt("RequireNoReferrerOnFullyQualifiedLinks", true)},
+	}
+	for ti, tg := range toggles {
+		for rel := 0; rel < 2; rel++ {
+			calls := []C{attrsOn([]string{"href", "title", "target"}, "", "a", "area", "link"), {Op: "AllowURLSchemes", Names: []string{"http", "https", "mailto"}}, opt("AllowRelativeURLs", true)}
+			if rel == 1 {
+				calls = append(calls, attrsOn([]string{"rel"}, "", "a", "area", "link"))
+			}
+			calls = append(calls, tg...)
+			out = append(out, spec.Spec{Name: fmt.Sprintf("c11-toggle%d-rel%d", ti, rel), Base: "new", Calls: calls})
+		}
+	}
 	out = append(out, specsByName("ugc", "cmd-ugc", "cmd-email", "links")...)
 	return buildAll(out)
 }
